@@ -91,7 +91,7 @@ func restSpellings(p string, thorough bool) []string {
 		if p != "" {
 			// escape spelling of the first byte/rune
 			r := []rune(p)
-			out = append(out, "[\""+fmt.Sprintf("\\u%04x", r[0])+strings.Trim(strconv.Quote(string(r[1:])), "\"")+"\"]")
+			out = append(out, "[\""+runeEscape(r[0])+strings.Trim(strconv.Quote(string(r[1:])), "\"")+"\"]")
 		}
 	}
 	return out
@@ -448,4 +448,12 @@ func runC07(c *eng.Ctx) {
 		}
 		c.Sample(map[string]any{"path": path, "spellings": sps})
 	}
+}
+
+// runeEscape is the \u / \U escape spelling of one rune (supplementary-plane runes need the 8-digit form).
+func runeEscape(r rune) string {
+	if r > 0xffff {
+		return fmt.Sprintf("\\U%08x", r)
+	}
+	return fmt.Sprintf("\\u%04x", r)
 }
